@@ -31,7 +31,7 @@ Dom == [
     second |-> BOOLEAN,                          \* the route object was first resolved for another neighbour (local address 127.0.0.1), this
                                                  \* session is a second neighbour whose local address is 127.0.0.9 (one API command, two peers)
     origin |-> {"none", "igp", "egp", "incomplete"},
-    aspath |-> {"none", "short", "four", "set"},
+    aspath |-> {"none", "short", "four", "set", "fourset"},
     med |-> {"none", "ten", "max"},
     pref |-> {"none", "two"},
     atomic |-> BOOLEAN,
@@ -68,6 +68,8 @@ NH6 == <<32, 1, 13, 184, 0, 0, 0, 0, 0, 0, 0, 0, 0, 0, 0, 1>>
 GivenPath(r) == CASE r.aspath = "short" -> <<[t |-> 2, asns |-> <<A(0, 65010), A(0, 65020)>>]>>
                   [] r.aspath = "four"  -> <<[t |-> 2, asns |-> <<A(0, 65010), A(64086, 59904), A(1, 0)>>]>>     \* 4200000000, 65536
                   [] r.aspath = "set"   -> <<[t |-> 2, asns |-> <<A(0, 65010)>>], [t |-> 1, asns |-> <<A(0, 65020), A(0, 65030)>>]>>
+                  \* a 4-byte AS number in a segment which is not the last one
+                  [] r.aspath = "fourset" -> <<[t |-> 2, asns |-> <<A(0, 65010), A(64086, 59904)>>], [t |-> 1, asns |-> <<A(0, 65030), A(0, 65040)>>]>>
                   [] OTHER -> <<>>
 
 \* ---- what the RFCs require on the wire ------------------------------------------------------
